@@ -84,3 +84,35 @@ MANIFEST_TEXT['C17'] = {'text': 'Lean theorems for every hash function with 48-b
          'range), 48 (crypto.SHA384.Size()) and 6 (crypto.SHA384) are inline in extend.go / the Go standard library and not regenerated; 48 and the range are '
          'tied by rfl/decide to abi.RtmrSize and abi.rtmrsCount. I/O failures of the client are not modelled.',
  'technique': 'Lean 4 proof over an executable model + differential correspondence (exhaustive bounded histories + random)'}
+
+PROPS['C13'] = {'rule': 'real X.509 leaf certificates (crypto/x509.CreateCertificate + ParseCertificate, six extensions, SGX extension value assembled with encoding/asn1) '
+         'through pcs.PckCertificateExtensions: boundary values per component {0,127,128,255 | 256,-1,257,511,65535,65536,-128,-129,-256,2^31,2^63-1,-2^63, '
+         'four >64-bit} and for PCESVN {0,1,127,128,255,256,32767,32768,65534,65535 | 65536,65537,-1,-32768,-65536,131071,2^31,2^32,2^63-1,-2^63, three '
+         '>64-bit}, each in canonical and shuffled order; 200 (quick) / 5000 (thorough) random permutations of both sequences with random values and 0-3 '
+         'unknown sub-extensions; every octet string at size-1/size+1/0/size+2/2*size/3/130, double-wrapped (O-4b), wrapped with wrong inner size / trailing '
+         'byte / long-form length / other tag / twice; wrong ASN.1 types in every field (11 non-INTEGER and 8 non-OCTET-STRING forms); malformed elements, '
+         'non-minimal INTEGER and length encodings, trailing bytes, truncation, SET/indefinite/over-long top level, junk inside sequences; SGX extension '
+         'absent, 5 and 7 extensions, decoy extension id; O-4 shapes (missing/duplicate items and components, 17/19 TCB elements, 3 SGX elements), extra '
+         "fields / critical flag / junk a struct target ignores; 400 / 6000 random byte mutations of valid DER. The model's input is the driver's own "
+         "encoding/asn1 RawValue walk of the parsed certificate's extension value. A case is non-trivial when the certificate has six extensions and the SGX "
+         'value decodes to a SEQUENCE with nothing after it; distinct = distinct model input lines',
+ 'trusted_base': ['encoding/asn1 (DER framing and primitive decoding) and crypto/x509 (certificate parsing) are parameters: the proof is over decoded trees, '
+                  'the tree of every generated certificate is produced by encoding/asn1 itself in the driver',
+                  'the per-target reading of a tree (RawValue / []RawValue / pkix.AttributeTypeAndValue / pkix.Extension / ANY) is modelled from '
+                  "encoding/asn1's source (go1.23.5) and exercised by every correspondence run, including random byte mutations"],
+ 'assumptions': ['O-4 and O-4b (DESIGN.md §7) are modelled as the code behaves: absent items/components silently keep their zero value; an octet-string item '
+                 'that is a DER OCTET STRING of the wanted size is unwrapped',
+                 'the three octet-string sizes are < 128 (checked by `sizes_small : … := by decide` against the extracted constants)']}
+
+MANIFEST_TEXT['C13'] = {'text': 'Lean theorems over all decoded ASN.1 trees of the SGX extension value (extraction_exact: for every value assignment, every List.Perm of the 18 TCB '
+         'elements and of the SGX sub-extensions with any unknown sub-extensions added, plain or wrapped octet strings, the result is exactly the encoded '
+         'values; out_of_range_is_error, wrong_size_is_error (+cpusvn), wrong_type_is_error (+cpusvn, item, tcb), missing_sgx_extension_is_error, '
+         'wrong_extension_count_is_error, malformed_asn1_is_error: one bad element at any position makes the whole extraction an error; octet_item_sound; '
+         'extract_never_panics), with the model tied to pcs.go by the regenerated OIDs/sizes and by running the real pcs.PckCertificateExtensions on real '
+         'generated X.509 certificates (boundary values, random permutations, every malformed variant, random byte mutations) whose extension value the driver '
+         "decodes with encoding/asn1 into the model's tree.",
+ 'note': "DER decoding is encoding/asn1's and is a parameter: the proof is over decoded trees; how each asn1.Unmarshal target reads a tree is modelled from "
+         'the Go 1.23.5 source and checked behaviourally. O-4 (absent component/item silently zero/empty) and O-4b (double-wrapped octet strings accepted) are '
+         'modelled as the code behaves and are outside the error theorems. Trusted: Lean kernel (axioms propext/Classical.choice/Quot.sound at most), '
+         'extractor, harness.',
+ 'technique': 'Lean 4 proof over an executable model + differential correspondence (structured grid + random)'}
